@@ -292,7 +292,32 @@ pub fn record(pool_path: &str, w: &mut dyn Write, seed: u64, n_events: usize) {
             };
             let flat: Vec<Polygon<f64>> = mms.iter().flat_map(|m| m.0.iter().cloned()).collect();
             let by_poly = k % 2 == 0;
-            let ru = guard(|| if by_poly { unary_union(flat.iter()) } else { unary_union(mms.iter()) });
+            // one call in three is led by a SLIVER: a triangle with generic 53-bit coordinates (area ~ 1e-16) on which the plain
+            // floating-point determinant has the wrong sign with confidence (from findings/pinned_orient.ndjson, exact signs decided
+            // by BigInt.tla in C03), scaled by -2^-3 into the negative quadrant (away from the operands) and wound like the rest of
+            // the collection; it contributes no measurable area; the part of the result that lies in the negative quadrant (the sliver, as the overlay's
+            // fixed-point grid renders it) is dropped before the result is projected
+            let sliver_led = k % 3 == 2 && mi.is_none();
+            let hx = |h: &str| -> f64 { let (neg, h) = if let Some(r) = h.strip_prefix('-') { (true, r) } else { (false, h) };
+                let (m, e) = h.trim_start_matches("0x1.").split_once('p').unwrap(); let mant = 1.0 + u64::from_str_radix(m, 16).unwrap() as f64 / 2f64.powi(4 * m.len() as i32);
+                let v = mant * 2f64.powi(e.parse::<i32>().unwrap()); if neg { -v } else { v } };
+            const SLIVERS: [([&str; 2], [&str; 2], [&str; 2], i32); 3] = [
+                (["0x1.485426fab5728p+0", "0x1.6a9e7413c8f4ep+0"], ["0x1.02ceab1d3318ep+5", "0x1.1dd63904c50ffp+5"], ["0x1.742127bd6acecp-47", "0x1.8bf53f49244fdp-47"], 1),
+                (["0x1.0e8c81af6eaeep+0", "0x1.1ba6006136c02p+0"], ["0x1.4cd1e0ad1fc76p+5", "0x1.5cef3b219ceecp+5"], ["0x1.6d1b331136737p-47", "0x1.83f74bfb0a919p-47"], 1),
+                (["0x1.4794e1fb4eb75p+0", "0x1.46e6caba940b2p+0"], ["0x1.1098b68e7230dp+5", "0x1.1007d7fb22343p+5"], ["0x1.2720afe470cb8p-48", "0x1.f13399c655514p-49"], -1)];
+            let sliver: Option<Polygon<f64>> = if sliver_led {
+                let (p, q, r, sign) = SLIVERS[(k / 3) % 3];
+                let c = |h: [&str; 2]| Coord { x: -hx(h[0]) / 8.0, y: -hx(h[1]) / 8.0 };
+                // ring r, p, q, r has the exact orientation `sign` (1 = counter-clockwise); reverse it if the collection is wound the other way
+                let ring = if (sign == 1) != cw { vec![c(r), c(p), c(q), c(r)] } else { vec![c(r), c(q), c(p), c(r)] };
+                Some(Polygon::new(LineString::new(ring), vec![]))
+            } else { None };
+            let call_flat: Vec<Polygon<f64>> = sliver.iter().cloned().chain(flat.iter().cloned()).collect();
+            let call_mms: Vec<MultiPolygon<f64>> = sliver.iter().map(|p| MultiPolygon::new(vec![p.clone()])).chain(mms.iter().cloned()).collect();
+            let ru = guard(|| {
+                let u = if by_poly { unary_union(call_flat.iter()) } else { unary_union(call_mms.iter()) };
+                if sliver_led { MultiPolygon::new(u.0.into_iter().filter(|p| !p.exterior().0.iter().all(|c| c.x <= 1e-6 && c.y <= 1e-6)).collect()) } else { u }
+            });
             let rf = guard(|| {
                 let mut acc = mms[0].clone();
                 for m in &mms[1..] {
@@ -300,7 +325,7 @@ pub fn record(pool_path: &str, w: &mut dyn Write, seed: u64, n_events: usize) {
                 }
                 acc
             });
-            let unote = format!("{} members, {} {} map:{}", ms.len(), if cw {"cw"} else {"ccw"}, if by_poly {"polygons"} else {"multipolygons"}, mi.map(|m| m.name).unwrap_or("id"));
+            let unote = format!("{} members, {} {} map:{}{}", ms.len(), if cw {"cw"} else {"ccw"}, if by_poly {"polygons"} else {"multipolygons"}, mi.map(|m| m.name).unwrap_or("id"), if sliver_led { " sliver-led" } else { "" });
             emit(w, &|pj: &mut Pj| {
                 let jms: Vec<Value> = ms.iter().map(|m| mp_json(m, &id, pj)).collect();
                 match (&ru, &rf) {
